@@ -4,6 +4,8 @@ import (
 	"bytes"
 	"encoding/binary"
 	"encoding/gob"
+	"errors"
+	"fmt"
 	"sort"
 	"sync"
 
@@ -31,7 +33,14 @@ func OpenIndexFromBoltDatabase(db *bbolt.DB, opts ...IndexOption) (*Index, error
 
 	err := db.View(func(tx *bbolt.Tx) error {
 		bucket := tx.Bucket([]byte("data"))
+		if bucket == nil {
+			return errors.New("not an updog index: data bucket not found")
+		}
+
 		schemaItem := bucket.Get(keySchema)
+		if schemaItem == nil {
+			return errors.New("not an updog index: schema not found")
+		}
 
 		var sch schema
 
@@ -42,6 +51,9 @@ func OpenIndexFromBoltDatabase(db *bbolt.DB, opts ...IndexOption) (*Index, error
 		idx.schema = &sch
 
 		rowsItem := bucket.Get(keyNextRowID)
+		if len(rowsItem) != 4 {
+			return fmt.Errorf("not an updog index: invalid row counter of length %d", len(rowsItem))
+		}
 
 		idx.nextRowID = binary.BigEndian.Uint32(rowsItem)
 		return nil
